@@ -92,7 +92,7 @@ def run(ctx):
                     ("pen_sizepos", "TICKIT_PEN_SIZEPOS"), ("n_pen_attrs", "TICKIT_N_PEN_ATTRS"),
                     ("sizepos_normal", "TICKIT_PEN_SIZEPOS_NORMAL"), ("sizepos_small", "TICKIT_PEN_SIZEPOS_SMALL"),
                     ("sizepos_superscript", "TICKIT_PEN_SIZEPOS_SUPERSCRIPT"), ("sizepos_subscript", "TICKIT_PEN_SIZEPOS_SUBSCRIPT"),
-                    ("under_none", "TICKIT_PEN_UNDER_NONE"), ("under_single", "TICKIT_PEN_UNDER_SINGLE"),
+                    ("under_none", "TICKIT_PEN_UNDER_NONE"), ("under_single", "TICKIT_PEN_UNDER_SINGLE"), ("under_double", "TICKIT_PEN_UNDER_DOUBLE"),
                     ("run_nohang", "TICKIT_RUN_NOHANG"), ("run_nosetup", "TICKIT_RUN_NOSETUP"),
                     ("tickit_ctl_use_altscreen", "TICKIT_CTL_USE_ALTSCREEN")]:
         want(lean, c)
@@ -160,11 +160,16 @@ def run(ctx):
     body = func_body(xt, "on_modereport") or ""
     vm = re.search(r"case\s+25\s*:(.*?)break\s*;", body, re.S)
     replies_guarded = bool(vm and re.search(r"!\s*xd\s*->\s*initialised\s*\.\s*cursorvis", vm.group(1)))
+    body = func_body(xt, "chpen") or ""
+    um = re.search(r"case\s+TICKIT_PEN_UNDER\s*:(.*?)break\s*;", body, re.S)
+    under_safe = bool(um and re.search(r"!\s*xd\s*->\s*cap\s*\.\s*csi_sub_colon", um.group(1))
+                      and re.search(r"TICKIT_PEN_UNDER_DOUBLE\s*\)\s*\?\s*21\s*:\s*onoff\s*->\s*on", um.group(1)))
     out.append("/-- Which variant of the hand model mirrors the working tree (see `Tickit.Modes.Cfg`). -/")
+    out.append(f"def underStyleSafe : Bool := {'true' if under_safe else 'false'}")
     out.append(f"def keypadRecorded : Bool := {'true' if keypad_recorded else 'false'}")
     out.append(f"def resumeResendsPen : Bool := {'true' if resume_resends else 'false'}")
     out.append(f"def repliesGuarded : Bool := {'true' if replies_guarded else 'false'}")
-    facts.update(keypadRecorded=keypad_recorded, resumeResendsPen=resume_resends, repliesGuarded=replies_guarded,
+    facts.update(underStyleSafe=under_safe, keypadRecorded=keypad_recorded, resumeResendsPen=resume_resends, repliesGuarded=replies_guarded,
                  sgr_on=on, sgr_off=off, mode_for_mouse=pairs)
 
     write("ModeLayout", "namespace Tickit.Gen.ModeLayout\n" + "\n".join(out) + "\nend Tickit.Gen.ModeLayout\n")
